@@ -96,7 +96,13 @@ def pair_cmds(x, y):
             {"op": "create_loop", "cont": "h", "category": "k", "names": [ny]},
             {"op": "packet_create", "p": "p", "names": [nx]}, {"op": "packet_op", "p": "p", "f": "get", "name": ny},
             {"op": "value_create", "v": "t", "kind": 3}, {"op": "value_op", "v": "t", "f": "set_key", "key": x}, {"op": "value_op", "v": "t", "f": "get_key", "key": y},
-            {"op": "value_op", "v": "t", "f": "set_key", "key": y}, {"op": "value_op", "v": "t", "f": "get_keys"}, {"op": "reset"}]
+            {"op": "value_op", "v": "t", "f": "set_key", "key": y}, {"op": "value_op", "v": "t", "f": "get_keys"},
+            # the parser's own duplicate detection: two scalars, two names of one loop header, two block headers, two frames
+            {"op": "parse", "cif": "q1", "text": "#\\#CIF_2.0\ndata_p\n%s 1\n%s 2\n" % (nx, ny), "errors": "accept"},
+            {"op": "parse", "cif": "q2", "text": "#\\#CIF_2.0\ndata_p\nloop_ %s %s\n1 2\n" % (nx, ny), "errors": "accept"},
+            {"op": "parse", "cif": "q3", "text": "#\\#CIF_2.0\ndata_%s\n_a 1\ndata_%s\n_b 2\n" % (x, y), "errors": "accept"},
+            {"op": "parse", "cif": "q4", "text": "#\\#CIF_2.0\ndata_p\nsave_%s\n_a 1\nsave_\nsave_%s\n_b 2\nsave_\n" % (x, y), "errors": "accept"},
+            {"op": "reset"}]
 
 
 def c09(tier, replay=None):
@@ -170,6 +176,9 @@ def c09(tier, replay=None):
                    "found": o[4].get("rc") == 0, "dup": o[5].get("rc") == 11, "ffound": o[7].get("rc") == 0, "fdup": o[8].get("rc") == 21,
                    "ifound": o[10].get("rc") == 0, "idup": o[11].get("rc") == 41, "pfound": o[13].get("rc") == 0,
                    "kfound": o[16].get("rc") == 0, "kspell": (keys == [y]) if unicodedata.normalize("NFC", x) == unicodedata.normalize("NFC", y) else True}
+            errs = lambda q: [e.get("code") for e in q.get("log", []) if e.get("cb") == "error"]
+            rec.update(psdup=errs(o[19]) == [41], psnone=errs(o[19]) == [], pldup=errs(o[20]) == [41], plnone=errs(o[20]) == [] and o[20].get("rc") == 0,
+                       pbdup=errs(o[21]) == [11], pbnone=errs(o[21]) == [], pfdup=errs(o[22]) == [21], pfnone=errs(o[22]) == [])
             recs.append(rec); owners.append(("pair", x, y, nx, ny))
     # idempotence needs a second normalisation: batch it
     norms = list({o[3] for o in owners if o[0] == "pair"} | {o[4] for o in owners if o[0] == "pair"})
